@@ -1125,7 +1125,12 @@ def rule_nonempty(fm, rep, rid='R7'):
     if b is None:
         return
     rep.analysed(b)
-    ib = inl(cad, b)
+    # a private `fn is_empty(&MetricValue) -> bool` stays a call (judged per variant below)
+    preds = [x for x in cad.all_bodies if x.def_kind in ('Fn', 'AssocFn') and x.arg_count == 1 and x.locals[0].strip() == 'bool' and
+             x.locals[1].lstrip('&').strip() == MV and not x.impl_trait]
+    # (no jump threading here: the rule looks for the guard itself; a threaded copy of the scalar paths, whose count is the
+    # constant 1, would bypass it)
+    ib = inl(cad, b, thread=False, never=lambda x: x in preds)
     T = Terms(ib)
     # where is the Success state constructed?
     succ_blocks = []
@@ -1158,6 +1163,12 @@ def rule_nonempty(fm, rep, rid='R7'):
                             if d[1] in ('Eq', 'Ne') and atom(d[2]) and d[3][0] == 'const' and d[3][2] == '0':
                                 if (d[1] == 'Ne') == lab[1]:
                                     guarded = True
+            elif d[0] == 'call' and any(strip_generics(x.path) == d[1] for x in preds) and ('bool', False) in labels:
+                okp, whyp = _emptiness_predicate(cad, [x for x in preds if strip_generics(x.path) == d[1]][0])
+                if okp:
+                    guarded = True
+                else:
+                    why = whyp
             elif term_callee_is(d, '::is_empty') and ('bool', False) in labels:
                 guarded = True
     if guarded:
@@ -1178,6 +1189,27 @@ def rule_nonempty(fm, rep, rid='R7'):
     else:
         for s in sorted(set(srcs)):
             rep.bad(rid, s, b.where(), 'an empty Vec is accepted and rendered as "key:|type" - a line without any value (%s)' % why)
+
+
+def _emptiness_predicate(cad, pb):
+    """pb: fn(&MetricValue) -> bool.  True for every packed variant exactly when its list is empty?"""
+    T = Terms(pb)
+    if pb.blocks[0]['term']['k'] != 'switch':
+        return False, 'the emptiness predicate is not a match on the value'
+    dt, edges = T.switch_facts(0)
+    seen = {}
+    for s, labs in edges.items():
+        for lab in labs:
+            nms = [lab[1]] if lab[0] == 'variant' else (list(lab[1]) if lab[0] == 'variants' else [])
+            for nm in nms:
+                seen[nm] = ret_terms(T, [s])
+    for v in ('PackedSigned', 'PackedUnsigned', 'PackedFloat'):
+        r = seen.get(v)
+        ok = r is not None and len(r) == 1 and term_callee_is(list(r)[0], 'alloc::vec::Vec::is_empty') and \
+            any(y[0] == 'payload' and y[2] == v for y in walk(list(r)[0]))
+        if not ok:
+            return False, 'the emptiness predicate does not test the list of %s (returns %s)' % (v, [fmt(x) for x in (r or [])])
+    return True, ''
 
 
 def _is_count_of_val(t, fm, body, T):
